@@ -151,6 +151,10 @@ type segConn struct {
 	sent    bool
 	hello   []byte
 	stalled bool
+	// trailer: a change_cipher_spec record is sent right behind the ClientHello
+	// record in the same byte stream (a TLS 1.3 server drops it); the read that
+	// completes the hello may then carry bytes that do not belong to it
+	trailer bool
 }
 
 func (c *segConn) Write(p []byte) (int, error) {
@@ -159,7 +163,10 @@ func (c *segConn) Write(p []byte) (int, error) {
 	}
 	c.sent = true
 	c.hello = append([]byte(nil), p...)
-	return len(p), writeSegments(c.Conn, c.ln, p, c.cuts, &c.stalled)
+	if c.trailer {
+		p = append(append([]byte(nil), p...), 20, 3, 3, 0, 1, 1)
+	}
+	return len(c.hello), writeSegments(c.Conn, c.ln, p, c.cuts, &c.stalled)
 }
 
 func writeSegments(conn net.Conn, ln *countListener, p []byte, cuts []int, stalled *bool) error {
@@ -185,6 +192,8 @@ type segCase struct {
 	Config string `json:"config"`
 	Cuts   []int  `json:"cuts"`
 	UA     string `json:"user_agent"`
+	// Trailer: see segConn.trailer
+	Trailer bool `json:"ccs_record_behind_hello,omitempty"`
 }
 
 type segReply struct {
@@ -275,7 +284,10 @@ func (e *segEnv) runSeg(sc segCase) {
 	defer e.byAddr.Delete(local)
 	defer e.ln.conns.Delete(local)
 	raw.SetDeadline(time.Now().Add(3 * time.Minute))
-	seg := &segConn{Conn: raw, cuts: sc.Cuts, ln: e.ln}
+	seg := &segConn{Conn: raw, cuts: sc.Cuts, ln: e.ln, trailer: sc.Trailer}
+	if sc.Trailer {
+		r.count("seg_with_record_behind_hello", 1)
+	}
 	tc := tls.Client(seg, cfg)
 	hsErr := tc.Handshake()
 	r.eval(1)
@@ -483,10 +495,10 @@ func subSeg(args []string) int {
 		}
 		rl := len(h) + 5 // record length on the wire
 		ua := uas[ci%len(uas)]
-		cases = append(cases, segCase{hc.Name, nil, ua})
+		cases = append(cases, segCase{Config: hc.Name, UA: ua})
 		// every 2-segmentation (quick: sub-sampled above 64 for long records)
 		for k := 1; k < rl; k++ {
-			cases = append(cases, segCase{hc.Name, []int{k}, ua})
+			cases = append(cases, segCase{Config: hc.Name, Cuts: []int{k}, UA: ua})
 		}
 		// sampled 3- and 4-segmentations
 		m := 300
@@ -504,10 +516,21 @@ func subSeg(args []string) int {
 				cuts = append(cuts, 1+rng.Intn(rl-1))
 			}
 			sort.Ints(cuts)
-			cases = append(cases, segCase{hc.Name, cuts, uas[i%len(uas)]})
+			cases = append(cases, segCase{Config: hc.Name, Cuts: cuts, UA: uas[i%len(uas)]})
 		}
 		// byte-at-a-time for the first 12 bytes
-		cases = append(cases, segCase{hc.Name, []int{1, 2, 3, 4, 5, 6, 7, 8, 9, 10, 11, 12}, ua})
+		cases = append(cases, segCase{Config: hc.Name, Cuts: []int{1, 2, 3, 4, 5, 6, 7, 8, 9, 10, 11, 12}, UA: ua})
+		// a record directly behind the hello in the same stream, cut in front of,
+		// at and behind the end of the hello record (TLS 1.3 only: the server
+		// has to drop the change_cipher_spec)
+		if hc.Name == "tls13-default" {
+			for _, cuts := range [][]int{nil, {rl}, {rl - 1}, {rl + 1}, {rl + 3}, {rl / 2}, {7, rl + 2}, {rl - 7, rl + 5}, {1, 2, 3, 4, 5, 6}} {
+				cases = append(cases, segCase{Config: hc.Name, Cuts: cuts, UA: ua, Trailer: true})
+			}
+			for i := 0; i < 40; i++ {
+				cases = append(cases, segCase{Config: hc.Name, Cuts: []int{1 + rng.Intn(rl+5)}, UA: ua, Trailer: true})
+			}
+		}
 	}
 
 	// hostile records: mutated hellos behind a record header with right and wrong lengths
